@@ -120,27 +120,121 @@ Lemma set_within_capacity max e p it c :
   0 < max -> cache_bytes c <= max -> set_fits max e p it c = true ->
   cache_bytes (cset_o e p it c) <= max.
 Proof.
-  intros Hm Hc. unfold set_fits, cset_o.
+  intros Hm Hc. unfold set_fits, cset_o. cbv zeta.
   destruct (Z.eqb_spec max 0) as [->|_]; [lia|].
-  pose proof (cache_bytes_evict (fst e) c) as H1.
-  set (c1 := fold_left (fun c q => cdel q c) (fst e) c) in *.
+  pose proof (cache_bytes_evict (fst e) c) as H1. fold (evict (fst e) c) in *.
   destruct (entry_bytes p it >? max) eqn:G.
-  - intros Hs. apply negb_true_iff in Hs. rewrite Hs. lia.
-  - intros Hs. apply andb_true_iff in Hs. destruct Hs as [-> Hle].
+  - intros Hs. apply andb_true_iff in Hs. destruct Hs as [Hs _].
+    apply negb_true_iff in Hs. rewrite Hs. lia.
+  - intros Hs. apply andb_true_iff in Hs. destruct Hs as [Hs _].
+    apply andb_true_iff in Hs. destruct Hs as [-> Hle].
     apply Z.leb_le in Hle. rewrite cache_bytes_cset.
-    pose proof (cache_bytes_cdel p c1). lia.
+    pose proof (cache_bytes_cdel p (evict (fst e) c)). lia.
 Qed.
 
-(** An element larger than the whole cache is never kept. *)
+(** An element larger than the whole cache is refused and nothing is deleted
+    for it. *)
 Lemma set_too_large_dropped max e p it c :
   0 < max -> max < entry_bytes p it -> set_fits max e p it c = true ->
-  cset_o e p it c = fold_left (fun c q => cdel q c) (fst e) c.
+  cset_o e p it c = c.
 Proof.
-  intros Hm Hl. unfold set_fits, cset_o.
+  intros Hm Hl. unfold set_fits, cset_o. cbv zeta.
   destruct (Z.eqb_spec max 0) as [->|_]; [lia|].
   replace (entry_bytes p it >? max) with true by (symmetry; apply Z.gtb_lt; lia).
-  intros Hs. apply negb_true_iff in Hs. now rewrite Hs.
+  intros Hs. apply andb_true_iff in Hs. destruct Hs as [Hs Hn].
+  apply negb_true_iff in Hs. rewrite Hs. destruct (fst e); [reflexivity|discriminate].
 Qed.
+
+(** Through [storeInCache], [Check] and whole histories: if every [Set]
+    satisfies the golibs condition, the cache never exceeds its size. *)
+Lemma store_pos_within max exp resp : 0 < max -> forall ps evs c,
+  cache_bytes c <= max -> store_pos_fits max exp resp ps evs c = true ->
+  cache_bytes (fst (store_pos exp resp ps evs c)) <= max.
+Proof.
+  intros Hm. induction ps as [|p ps IH]; intros evs c Hc; cbn [store_pos store_pos_fits fst]; auto.
+  destruct (pop evs) as [e evs']. intros H. apply andb_true_iff in H. destruct H as [H1 H2].
+  apply IH; auto. now apply set_within_capacity.
+Qed.
+
+Lemma store_neg_within max exp keys : 0 < max -> forall l evs c,
+  cache_bytes c <= max -> store_neg_fits max exp keys l evs c = true ->
+  cache_bytes (fst (store_neg exp keys l evs c)) <= max.
+Proof.
+  intros Hm. induction l as [|h l IH]; intros evs c Hc; cbn [store_neg store_neg_fits fst]; auto.
+  destruct (cget (prefix_of h) c); [now apply IH|].
+  destruct (mem_hash (prefix_of h) keys); [now apply IH|].
+  destruct (pop evs) as [e evs']. intros H. apply andb_true_iff in H. destruct H as [H1 H2].
+  apply IH; auto. now apply set_within_capacity.
+Qed.
+
+Lemma store_within max exp to_req resp order evs c : 0 < max ->
+  cache_bytes c <= max -> store_fits max exp to_req resp order evs c = true ->
+  cache_bytes (fst (store_in_cache exp to_req resp order evs c)) <= max.
+Proof.
+  intros Hm Hc. unfold store_fits, store_in_cache. cbv zeta. intros H.
+  apply andb_true_iff in H. destruct H as [H1 H2].
+  pose proof (store_pos_within max exp resp Hm _ evs c Hc H1) as P.
+  destruct (store_pos exp resp _ evs c) as [c1 evs1]. cbn [fst] in P.
+  now apply store_neg_within.
+Qed.
+
+Section Fits.
+  Variable sha : bytes -> hash.
+  Variable pubsuf : bytes -> bytes * bool.
+  Variable suffix : bytes.
+  Variable cache_time : Z.
+  Variable max : Z.
+  Hypothesis Hmax : 0 < max.
+
+  Lemma check_within svc order evs now host c :
+    cache_bytes c <= max ->
+    check_fits sha pubsuf cache_time max svc order evs now host c = true ->
+    cache_bytes (fst (check sha pubsuf suffix cache_time svc order evs now host c)) <= max.
+  Proof.
+    intros Hc. unfold check_fits, check.
+    destruct (find_in_cache now c (hostname_to_hashes sha pubsuf host)) as [| |hs]; cbn [fst]; auto.
+    destruct (svc (map prefix_of hs)) as [strs|]; cbn [fst]; auto.
+    intros H. pose proof (store_within max _ hs (parse_txt strs) order evs c Hmax Hc H) as P.
+    destruct (store_in_cache _ hs (parse_txt strs) order evs c). exact P.
+  Qed.
+
+  Lemma step_within o st :
+    cache_bytes (snd st) <= max ->
+    match o with
+    | OCheck host svc order evs =>
+        check_fits sha pubsuf cache_time max svc order evs (fst st) host (snd st) = true
+    | _ => True
+    end ->
+    cache_bytes (snd (fst (step sha pubsuf suffix cache_time o st))) <= max.
+  Proof.
+    destruct st as [now c]. cbn [fst snd]. intros Hc. destruct o as [host svc order evs|d|ps]; cbn [step].
+    - intros H. pose proof (check_within svc order evs now host c Hc H) as P.
+      destruct (check sha pubsuf suffix cache_time svc order evs now host c). exact P.
+    - auto.
+    - intros _. cbn [fst snd]. pose proof (cache_bytes_evict ps c). unfold evict in *. lia.
+  Qed.
+
+  Theorem run_within_capacity : forall ops st,
+    cache_bytes (snd st) <= max ->
+    run_fits sha pubsuf suffix cache_time max ops st = true ->
+    Forall (fun r => cache_bytes (snd (fst r)) <= max) (run sha pubsuf suffix cache_time ops st).
+  Proof.
+    induction ops as [|o ops IH]; intros st Hc; cbn [run run_fits]; [constructor|].
+    intros H. apply andb_true_iff in H. destruct H as [H1 H2].
+    assert (Hs : cache_bytes (snd (fst (step sha pubsuf suffix cache_time o st))) <= max).
+    { apply step_within; auto. destruct o; auto. }
+    constructor; auto.
+  Qed.
+End Fits.
+
+(** A history on a cache of 45 bytes: the negative entry (10 bytes) pushes the
+    positive one (42 bytes) out and the other way round. *)
+Definition ops45 : list op :=
+  let pe := prefix_of (Examples.sha Examples.evil) in
+  let pc := prefix_of (Examples.sha [99;46;101;118;105;108;46;99;111;46;117;107]%N) in
+  [OCheck Examples.host1 (db_service Examples.db) [pe] [([], true); ([pe], true)];
+   OCheck Examples.host1 (db_service Examples.db) [pe] [([pc], true)];
+   OCheck Examples.host1 (db_service Examples.db) [] []].
 
 (** Non-vacuity: an element of one hash is 42 bytes; in a cache of 60 bytes
     that holds one such element, a second one fits only if the first goes. *)
@@ -156,6 +250,13 @@ Example set_example :
   Z.of_nat (length (encode_item it1)) = 40 /\ decode_item (encode_item it1) = it1 /\
   set_fits 60 ([], true) p2 it2 c = false /\
   set_fits 60 ([p1], true) p2 it2 c = true /\
+  set_fits 100 ([p1], true) p2 it2 c = false /\
   cache_bytes (cset_o ([p1], true) p2 it2 c) = 42 /\
-  set_fits 41 ([], false) p2 it2 [] = true /\ set_fits 41 ([], true) p2 it2 [] = false.
-Proof. vm_compute. repeat split; reflexivity. Qed.
+  set_fits 41 ([], false) p2 it2 [] = true /\ set_fits 41 ([], true) p2 it2 [] = false /\
+  run_fits Examples.sha Examples.pubsuf Examples.sfx Examples.ct 45 ops45 (0, []) = true /\
+  map (fun r => (cache_bytes (snd (fst r)), match snd r with Some o => o_sets_left o | None => 9%nat end))
+      (run Examples.sha Examples.pubsuf Examples.sfx Examples.ct ops45 (0, []))
+  = [(10, 0%nat); (42, 0%nat); (42, 0%nat)].
+Proof.
+  cbv zeta. repeat (split; [vm_compute; reflexivity|]). vm_compute. reflexivity.
+Qed.
